@@ -26,6 +26,21 @@ vars == <<hs, docs, calls>>
 
 A == Id(<<97>>)  B == Id(<<98>>)
 Fn(name, args) == <<Id(name), LP>> \o args \o <<RP>>
+\* every function that reorders or rebuilds an array, applied to every kind of
+\* sub-expression whose result may share memory with the caller's data or
+\* with the AST (wildcard without nulls, slices, flatten, pipes, variables,
+\* multi-select round trips, boolean operators, literals)
+Sources == << <<A>>, <<A, LB, Star, RB>>, <<A, Flat>>, <<A, LB, IntT(<<48>>), Colon, RB>>, <<A, LB, Colon, Colon, IntT(<<49>>), RB>>,
+              <<CurT, Dot, A>>, <<RootT, Dot, A>>, <<A, OrT, A>>, <<A, AndT, A>>, Fn(<<110,111,116,95,110,117,108,108>>, <<A>>), Fn(<<116,111,95,97,114,114,97,121>>, <<A>>),
+              <<LB, A, RB, LB, IntT(<<48>>), RB>>, <<LBr, Id(<<107>>), Colon, A, RBr, Dot, Id(<<107>>)>>, <<A, PipeT, CurT>>,
+              <<Json(<<96,91,51,44,49,44,50,93,96>>)>>, <<A, Filt, Json(<<96,116,114,117,101,96>>), RB>>, <<LP, A, RP>>, Fn(<<118,97,108,117,101,115>>, <<LBr, Id(<<107>>), Colon, A, RBr>>) \o <<LB, IntT(<<48>>), RB>> >>
+MutFns == << <<115,111,114,116>>, <<114,101,118,101,114,115,101>> >>
+Mutators == [i \in 1..(Len(Sources) * 2) |->
+               LET src == Sources[((i - 1) \div 2) + 1]  f == MutFns[((i - 1) % 2) + 1] IN Fn(f, src)]
+            \o [i \in 1..Len(Sources) |-> Fn(<<115,111,114,116,95,98,121>>, Sources[i] \o <<Comma, AmpT>> \o Fn(<<116,111,95,115,116,114,105,110,103>>, <<CurT>>))]
+            \o << <<LetT, VarT(<<36,118>>), AssignT, A, InT>> \o Fn(<<115,111,114,116>>, <<VarT(<<36,118>>)>>),
+                  <<LetT, VarT(<<36,118>>), AssignT, A, LB, Star, RB, InT, LB>> \o Fn(<<114,101,118,101,114,115,101>>, <<VarT(<<36,118>>)>>) \o <<Comma, VarT(<<36,118>>), RB>> >>
+
 \* expressions chosen for what could go wrong behind the API: literals
 \* returned by reference from the AST, in-place sorts and reversals, slices
 \* that alias the input, merges, let, and statically faulty texts
@@ -43,6 +58,8 @@ Texts == <<
   <<Json(<<96,123,34,107,34,58,91,50,44,49,93,125,96>>), Dot, Id(<<107>>)>>,
   Fn(<<109,97,120,95,98,121>>, <<A, Comma, AmpT, Id(<<107>>)>>),
   <<A, Flat>>, Fn(<<116,111,95,97,114,114,97,121>>, <<CurT>>), Fn(<<110,111,115,117,99,104>>, <<A>>), <<CurT>> >>
+  \o Mutators
+
 
 Init == hs = <<>> /\ docs = PoolApi /\ calls = <<>>
 
